@@ -211,6 +211,34 @@ static void sc_conv_16_from_32 (T *t)
     pixman_region_fini (&d); pixman_region32_fini (&r);
 }
 
+/* the same conversion into a region that already owns a rectangle array (three rectangles): on failure the caller's region must still be a region */
+static void sc_conv_16_from_32_owned (T *t)
+{
+    int hf, ok; pixman_box32_t b[20]; for (int i = 0; i < 20; i++) { b[i].x1 = 3 * i; b[i].x2 = 3 * i + 2; b[i].y1 = i % 3; b[i].y2 = 4 + i % 3; }
+    pixman_region32_t r; if (!pixman_region32_init_rects (&r, b, 20)) V (t, "c15-harness-setup", "region32");
+    pixman_box16_t o[3] = { { 0, 0, 2, 1 }, { 4, 0, 6, 1 }, { 1, 2, 5, 4 } };
+    pixman_region16_t d; if (!pixman_region_init_rects (&d, o, 3)) V (t, "c15-harness-setup", "region16");
+    WIN (ok = pixman_region16_copy_from_region32 (&d, &r));
+    st (t, "region16_copy_from_region32(20) into a region that owns three rectangles", ok, hf);
+    if (ok) { uint64_t h = r16_hash (&d); expect_same (t, "conv16-owned", &h, sizeof h, "converted rectangles"); if (!pixman_region_selfcheck (&d)) V (t, "c15-region-success-malformed", "converted region malformed"); }
+    else { pixman_region16_t one, tmp; pixman_region_init_rect (&one, 0, 0, 2, 2); pixman_region_init (&tmp); (void) pixman_region_union (&tmp, &d, &one); (void) pixman_region_n_rects (&d); pixman_region_fini (&tmp); }
+    pixman_region_fini (&d); pixman_region32_fini (&r);
+}
+/* compute_composite_region with a 20-rectangle clip (more than any on-stack conversion buffer) into a result region that holds the result of an earlier call */
+static void sc_compute_region16_reused (T *t)
+{
+    int hf, ok; surf_t s = surf_new (t, PIXMAN_a8r8g8b8, 70, 8, 1), d = surf_new (t, PIXMAN_a8r8g8b8, 70, 8, 2);
+    pixman_box32_t b[20]; for (int i = 0; i < 20; i++) { b[i].x1 = 3 * i; b[i].x2 = 3 * i + 2; b[i].y1 = i % 3; b[i].y2 = 5 + i % 3; }
+    pixman_region32_t r; if (!pixman_region32_init_rects (&r, b, 20) || !pixman_image_set_clip_region32 (d.img, &r)) V (t, "c15-harness-setup", "clip");
+    pixman_box16_t o[3] = { { 0, 0, 2, 1 }, { 4, 0, 6, 1 }, { 1, 2, 5, 4 } };
+    pixman_region16_t out; if (!pixman_region_init_rects (&out, o, 3)) V (t, "c15-harness-setup", "region16");
+    WIN (ok = pixman_compute_composite_region (&out, s.img, NULL, d.img, 0, 0, 0, 0, 1, 0, 66, 8));
+    st (t, "compute_composite_region(20-rect clip) into a region that owns three rectangles", ok, hf);
+    if (ok) { uint64_t h = r16_hash (&out); expect_same (t, "region16-reused", &h, sizeof h, "composite region"); }
+    else { pixman_region16_t one, tmp; pixman_region_init_rect (&one, 0, 0, 2, 2); pixman_region_init (&tmp); (void) pixman_region_union (&tmp, &out, &one); (void) pixman_region_n_rects (&out); pixman_region_fini (&tmp); }
+    pixman_region_fini (&out); pixman_region32_fini (&r); surf_free (&s); surf_free (&d);
+}
+
 /* public 16-bit composite-region query: region32 arithmetic + conversion */
 static void sc_compute_region16 (T *t)
 {
